@@ -2,7 +2,9 @@
      initModel, updateHist, multBInv (two-loop recursion), multB (compact representation), computeSearchDirection
      (unconstrained and box-constrained: getBoxConstrainedDirection as coded after the repairs e082c2d6 and 42faa67e),
      read / write.
-   Exact rationals, same conventions as C10Model.v.  Deviations from the text of the C++, all stated here:
+   The functions themselves are written once over an abstract number type in C10Gen.v; this file instantiates them with
+   the exact rationals of C10Model.v (same conventions) and adds what is specific to the line-search optimizer state.
+   Deviations from the text of the C++, all stated here:
      * the history is ONE list of pairs (step, gradient difference), oldest first, instead of two deques of equal length;
      * multB: the rows of A are kept unnormalised together with their normaliser n_i = s_i'a_i: the C++ divides the row by
        sqrt(n_i) and later uses A'A, i.e. a_i a_i' / n_i; the square root cancels and is not modelled;
@@ -12,125 +14,41 @@
      * m_updThres is set by initModel and is NOT archived: it is a field of the model that [lb_restore_extra] takes from
        the instance that is read into. *)
 From Coq Require Import List QArith Qreduction Qabs Bool Arith.
-From SharkV Require Import C10Model C10LsModel.
+From SharkV Require Import C10Model C10LsModel C10Gen.
 Import ListNotations.
 Open Scope Q_scope.
 
 (* the double 1e-10 (m_updThres); the double 1e-13 of getBoxConstrainedDirection is C10Model.box_eps *)
 Definition lb_upd_thres : Q := 7737125245533627 # 77371252455336267181195264.
 
+(* ---------------- the rational instance of the generic operations (C10Gen.v) ---------------- *)
 Definition qdiv (a b : Q) : Q := Qred (a / b).
-Definition qmin (a b : Q) : Q := if qltb b a then b else a.      (* std::min(a, b) *)
-Definition qmax (a b : Q) : Q := if qltb a b then b else a.      (* std::max(a, b) *)
-Definition vdiv (v : vec) (b : Q) : vec := map (fun a => qdiv a b) v.
+Definition qpow (a : Q) (k : nat) : Q := Qred (Qpower a (Z.of_nat k)).
+(* [sq]: what stands for std::sqrt (used by Adam only) *)
+Definition qops (sq : Q -> Q) : ops Q := mkOps Q 0 1 qadd qsub qmul qdiv Qopp qltb Qeq_bool sq qpow.
+Definition QO : ops Q := qops (fun x => x).
 
-Record lb_model : Type := mkLB {
-  lb_hist : nat;                     (* m_numHist *)
-  lb_bdiag : Q;                      (* m_bdiag *)
-  lb_thres : Q;                      (* m_updThres *)
-  lb_pairs : list (vec * vec) }.     (* (m_steps[i], m_gradientDifferences[i]), i = 0 (oldest) ... *)
+Definition qmin : Q -> Q -> Q := gmin Q QO.
+Definition qmax : Q -> Q -> Q := gmax Q QO.
+Definition vdiv : vec -> Q -> vec := gvdiv Q QO.
+
+(* m_numHist, m_bdiag, m_updThres, (m_steps[i], m_gradientDifferences[i]) oldest first *)
+Definition lb_model : Type := glb_model Q.
 
 (* initModel(); m_numHist is configuration (setHistCount) and is left alone *)
 Definition lb_init_model (numhist : nat) (n : nat) : lb_model := mkLB numhist 1 lb_upd_thres [].
 
-(* updateHist(y, step) *)
-Definition lb_update_hist (m : lb_model) (y s : vec) : lb_model :=
-  let ys := dot y s in
-  if qltb (lb_thres m) ys then
-    let ps := if Nat.leb (lb_hist m) (length (lb_pairs m)) then tl (lb_pairs m) else lb_pairs m in
-    mkLB (lb_hist m) (qdiv (dot y y) ys) (lb_thres m) (ps ++ [(s, y)])
-  else m.
-
-(* ---------------- multBInv: the two loops as coded ---------------- *)
-Definition lb_rho (p : vec * vec) : Q := qdiv 1 (dot (snd p) (fst p)).
-
-(* for (i = size; i > 0; --i): [rp] is the history NEWEST first; returns x and the alphas, newest first *)
-Fixpoint lb_loop1 (rp : list (vec * vec)) (x : vec) : vec * list Q :=
-  match rp with
-  | [] => (x, [])
-  | p :: r =>
-    let a := qmul (lb_rho p) (dot (fst p) x) in
-    let '(x', al) := lb_loop1 r (vsub x (vscale a (snd p))) in
-    (x', a :: al)
-  end.
-
-(* for (i = 0; i < size; ++i): history and alphas OLDEST first *)
-Fixpoint lb_loop2 (ps : list (vec * vec)) (al : list Q) (x : vec) : vec :=
-  match ps, al with
-  | p :: r, a :: al' =>
-    let beta := qmul (lb_rho p) (dot (snd p) x) in
-    lb_loop2 r al' (vadd x (vscale (qsub a beta) (fst p)))
-  | _, _ => x
-  end.
-
-Definition lb_mult_binv (bdiag : Q) (ps : list (vec * vec)) (x : vec) : vec :=
-  let '(q, al) := lb_loop1 (rev ps) x in
-  lb_loop2 ps (rev al) (vdiv q bdiag).
-
-(* ---------------- multB: compact representation ---------------- *)
-(* one processed history entry: y_j, beta_j = y_j's_j, the unnormalised row a_j = B_j s_j, its normaliser s_j'a_j *)
-Definition lb_row : Type := (vec * Q * vec * Q)%type.
-Definition lb_yterms (proc : list lb_row) (v acc : vec) : vec :=
-  fold_left (fun acc (r : lb_row) => let '(y, beta, _, _) := r in vadd acc (vscale (qdiv (dot y v) beta) y)) proc acc.
-Definition lb_aterms (proc : list lb_row) (v acc : vec) : vec :=
-  fold_left (fun acc (r : lb_row) => let '(_, _, a, nn) := r in vsub acc (vscale (qdiv (dot a v) nn) a)) proc acc.
-Definition lb_bapply (bdiag : Q) (proc : list lb_row) (v : vec) : vec :=
-  lb_aterms proc v (lb_yterms proc v (vscale bdiag v)).
-Fixpoint lb_build (bdiag : Q) (ps : list (vec * vec)) (proc : list lb_row) : list lb_row :=
-  match ps with
-  | [] => proc
-  | (s, y) :: r => let a := lb_bapply bdiag proc s in lb_build bdiag r (proc ++ [(y, dot y s, a, dot s a)])
-  end.
-Definition lb_mult_b (bdiag : Q) (ps : list (vec * vec)) (x : vec) : vec :=
-  lb_bapply bdiag (lb_build bdiag ps []) x.
-
-(* ---------------- getBoxConstrainedDirection ---------------- *)
-(* true = "active" in the naming of the C++ (the variable may move) *)
-Fixpoint lb_mask (l u x p0 : vec) : list bool :=
-  match l, u, x, p0 with
-  | a :: l', b :: u', c :: x', p :: p0' =>
-    negb ((qltb (qsub c box_eps) a && qltb p 0) || (qltb b (qadd c box_eps) && qltb 0 p)) :: lb_mask l' u' x' p0'
-  | _, _, _, _ => []
-  end.
-Fixpoint vmask (m : list bool) (v : vec) : vec :=
-  match m, v with
-  | b :: m', a :: v' => (if b then a else 0) :: vmask m' v'
-  | _, _ => []
-  end.
-(* the feasibility test of the full quasi-Newton step, active coordinates only *)
-Fixpoint lb_step_ok (m : list bool) (l u x st : vec) : bool :=
-  match m, l, u, x, st with
-  | b :: m', a :: l', c :: u', xi :: x', si :: st' =>
-    (negb b || negb (qltb (qadd (qadd xi box_eps) si) a || qltb c (qadd (qsub xi box_eps) si)))
-    && lb_step_ok m' l' u' x' st'
-  | _, _, _, _, _ => true
-  end.
-(* the ratio test: largest alpha <= alpha0 with l <= x + alpha c <= u in the active coordinates, 0 if a bound is passed *)
-Fixpoint lb_ratio (m : list bool) (l u x c : vec) (alpha : Q) : Q :=
-  match m, l, u, x, c with
-  | b :: m', a :: l', bb :: u', xi :: x', ci :: c' =>
-    let alpha' :=
-      if negb b || Qeq_bool ci 0 then alpha
-      else if qltb ci 0 then qmin alpha (qmax 0 (qdiv (qsub a xi) ci))
-      else qmin alpha (qmax 0 (qdiv (qsub bb xi) ci)) in
-    lb_ratio m' l' u' x' c' alpha'
-  | _, _, _, _, _ => alpha
-  end.
-
-Definition lb_box_dir (bdiag : Q) (ps : list (vec * vec)) (l u x g : vec) : vec :=
-  let m := lb_mask l u x (vneg g) in
-  let p0 := vmask m (vneg g) in
-  let step := vmask m (lb_mult_binv bdiag ps p0) in
-  if lb_step_ok m l u x step then step
-  else
-    let cauchy := vdiv p0 (dot p0 (lb_mult_b bdiag ps p0)) in
-    let alpha := lb_ratio m l u x cauchy 1 in
-    if qltb alpha 1 then vscale alpha cauchy
-    else
-      let point := vadd x cauchy in
-      let dir := vsub step cauchy in
-      let alpha2 := lb_ratio m l u point dir 1 in
-      vadd cauchy (vscale alpha2 dir).
+Definition lb_update_hist : lb_model -> vec -> vec -> lb_model := g_update_hist Q QO.       (* updateHist *)
+Definition lb_rho : vec * vec -> Q := g_rho Q QO.
+Definition lb_loop1 : list (vec * vec) -> vec -> vec * list Q := g_loop1 Q QO.
+Definition lb_loop2 : list (vec * vec) -> list Q -> vec -> vec := g_loop2 Q QO.
+Definition lb_mult_binv : Q -> list (vec * vec) -> vec -> vec := g_mult_binv Q QO.          (* multBInv *)
+Definition lb_mult_b : Q -> list (vec * vec) -> vec -> vec := g_mult_b Q QO.                (* multB *)
+Definition lb_mask : vec -> vec -> vec -> vec -> list bool := g_mask Q QO box_eps.
+Definition vmask : list bool -> vec -> vec := gvmask Q QO.
+Definition lb_step_ok : list bool -> vec -> vec -> vec -> vec -> bool := g_step_ok Q QO box_eps.
+Definition lb_ratio : list bool -> vec -> vec -> vec -> vec -> Q -> Q := g_ratio Q QO.
+Definition lb_box_dir : Q -> list (vec * vec) -> vec -> vec -> vec -> vec -> vec := g_box_dir Q QO box_eps.   (* getBoxConstrainedDirection *)
 
 (* ---------------- computeSearchDirection ---------------- *)
 Definition lbfgs_hist (s : ls_state lb_model) : lb_model :=
@@ -150,8 +68,8 @@ Definition lbfgs_dir_box (l u : vec) (s : ls_state lb_model) : lb_model * vec :=
 (* ---------------- LBFGS::write / read ---------------- *)
 (* m_numHist, m_bdiag, m_steps, m_gradientDifferences (a deque is archived as its size followed by its elements) *)
 Definition lb_save_extra (m : lb_model) : list field :=
-  [FN (lb_hist m); FQ (lb_bdiag m); FN (length (lb_pairs m))] ++ map (fun p => FV (fst p)) (lb_pairs m)
-  ++ [FN (length (lb_pairs m))] ++ map (fun p => FV (snd p)) (lb_pairs m).
+  [FN (lb_hist m); FQ (lb_bdiag m); FN (length (lb_pairs m))] ++ map (fun p : vec * vec => FV (fst p)) (lb_pairs m)
+  ++ [FN (length (lb_pairs m))] ++ map (fun p : vec * vec => FV (snd p)) (lb_pairs m).
 
 Fixpoint take_vecs (k : nat) (fs : list field) : option (list vec * list field) :=
   match k with
